@@ -482,6 +482,9 @@ def run(pid, fn, tier, seed, assumptions):
     if pid in ("C05", "C12"):
         from . import typeres
         typeres.run(ck, tier, "definition" if pid == "C05" else "completion")
+        if pid == "C05":
+            from . import usegraph
+            usegraph.run(ck, tier)
     if agg:
         ck.note("cursor_positions_checked_and_failed_by_association_path", {k: {"checked": v[0], "failed": v[1]} for k, v in sorted(agg.items())})
     for s in states[:2]:
